@@ -124,9 +124,104 @@ def check_sides(odl, np):
     return None
 
 
+def subpartition_cases(odl, np):
+    """(case, failure-or-None) for sub-partitions p[idx], p.byaxis[...], p.squeeze(), p.insert / append of pool partitions"""
+    ps = pool(odl, np)
+    ps.append(odl.uniform_partition([0.0, -1.0, 2.0], [1.0, 2.0, 3.0], (4, 3, 2), nodes_on_bdry=[(True, False), (False, False), (False, True)]))
+    ps.append(odl.nonuniform_partition([0.0, 1.0, 3.0, 3.5], [-1.0, 2.0, 2.5], min_pt=[-0.5, -2.0], max_pt=[4.0, 3.0]))
+
+    def invariants(q):
+        for ax in range(q.ndim):
+            b, g = q.cell_boundary_vecs[ax], q.grid.coord_vectors[ax]
+            if len(b) != len(g) + 1 or abs(b[0] - q.min_pt[ax]) > 1e-12 or abs(b[-1] - q.max_pt[ax]) > 1e-12:
+                return 'axis %d: boundaries %r do not run from min_pt %r to max_pt %r' % (ax, b, q.min_pt[ax], q.max_pt[ax])
+            if np.any(np.diff(b) < 0) or np.any(g < b[:-1] - 1e-12) or np.any(g > b[1:] + 1e-12):
+                return 'axis %d: node %r outside its own cell, boundaries %r' % (ax, g, b)
+        return None
+    for pi, p in enumerate(ps):
+        n0 = p.shape[0]
+        exprs = [slice(None), slice(1, None), slice(None, -1), slice(1, n0 - 1) if n0 > 2 else slice(0, 1), slice(None, None, 2), 0, n0 - 1, -1, [0], [0, n0 - 1], Ellipsis]
+        if p.ndim >= 2:
+            n1 = p.shape[1]
+            exprs += [(slice(1, None), slice(None, n1 - 1 if n1 > 1 else None)), (0, slice(None)), (slice(None), n1 - 1), (Ellipsis, 0), (slice(None, None, 2), Ellipsis)]
+        if p.ndim >= 3:
+            exprs += [(slice(1, 3), Ellipsis, slice(0, 1)), (1, Ellipsis), (slice(None), 1, slice(None))]
+        for e in exprs:
+            case = {'partition': repr(p), 'index': repr(e)}
+            try:
+                q = p[e]
+            except Exception as ex:
+                yield case, 'p[%r] raised %s: %s' % (e, type(ex).__name__, ex)
+                continue
+            bad = invariants(q)
+            if not bad and not isinstance(e, list):
+                # the selected cells are cells of the parent: end points are parent boundaries, nodes are parent nodes
+                full = e if isinstance(e, tuple) else (e,)
+                if Ellipsis in full:
+                    k = full.index(Ellipsis)
+                    full = full[:k] + (slice(None),) * (p.ndim - len(full) + 1) + full[k + 1:]
+                full = full + (slice(None),) * (p.ndim - len(full))
+                if q.ndim != p.ndim:
+                    bad = 'p[%r] has %d axes, the parent %d (integers keep their axis)' % (e, q.ndim, p.ndim)
+                for ax, idx in enumerate(full):
+                    if bad:
+                        break
+                    pb, pg = p.cell_boundary_vecs[ax], p.grid.coord_vectors[ax]
+                    sel = np.arange(p.shape[ax])[idx if isinstance(idx, slice) else slice(idx, idx + 1 if idx != -1 else None)]
+                    if len(sel) == 0:
+                        continue
+                    if not np.allclose(q.grid.coord_vectors[ax], pg[sel]):
+                        bad = 'axis %d: nodes %r are not the selected parent nodes %r' % (ax, q.grid.coord_vectors[ax], pg[sel])
+                    else:
+                        # documented: a step does not change the extent - the sub-partition spans the cells start .. stop of the parent
+                        span = np.arange(p.shape[ax])[slice(idx.start, idx.stop, None)] if isinstance(idx, slice) else sel
+                        if abs(q.min_pt[ax] - pb[span[0]]) > 1e-12 or abs(q.max_pt[ax] - pb[span[-1] + 1]) > 1e-12:
+                            bad = 'axis %d: [%r, %r] is not the union of the parent cells %d .. %d = [%r, %r]' % (ax, q.min_pt[ax], q.max_pt[ax], span[0], span[-1], pb[span[0]], pb[span[-1] + 1])
+            yield case, (('p[%r] of %r: ' % (e, p)) + bad) if bad else None
+        # byaxis / squeeze / insert / append keep (end points, nodes) together per axis
+        def axis_records(q):
+            return [(round(float(q.min_pt[a]), 12), round(float(q.max_pt[a]), 12), tuple(np.round(q.grid.coord_vectors[a], 12))) for a in range(q.ndim)]
+        rec = axis_records(p)
+        for sel in ([0], [p.ndim - 1], list(range(p.ndim))[::-1], [0, 0]):
+            case = {'partition': repr(p), 'byaxis': repr(sel)}
+            try:
+                q = p.byaxis[sel]
+                bad = None if axis_records(q) == [rec[i] for i in sel] else 'byaxis[%r] of %r: axes %r, expected %r' % (sel, p, axis_records(q), [rec[i] for i in sel])
+            except Exception as ex:
+                bad = 'byaxis[%r] raised %s: %s' % (sel, type(ex).__name__, ex)
+            yield case, bad
+        others = [ps[(pi + 1) % len(ps)], ps[(pi + 5) % len(ps)], ps[-1]]
+        for index in range(-p.ndim, p.ndim + 1):
+            for grp in ([others[0]], others[:2], [others[2], others[0]], others):
+                case = {'partition': repr(p), 'insert': index, 'others': [repr(o) for o in grp]}
+                pos = index + p.ndim if index < 0 else index
+                want = rec[:pos] + [r for o in grp for r in axis_records(o)] + rec[pos:]
+                try:
+                    q = p.insert(index, *grp)
+                    bad = None if axis_records(q) == want else 'insert(%d, %d partitions with ndim %r) into %r: axes %r, expected %r' % (index, len(grp), [o.ndim for o in grp], p, axis_records(q), want)
+                    bad = bad or invariants(q)
+                except Exception as ex:
+                    bad = 'insert raised %s: %s' % (type(ex).__name__, ex)
+                yield case, bad
+        case = {'partition': repr(p), 'squeeze': True}
+        try:
+            q = p.squeeze()
+            keep = [a for a in range(p.ndim) if p.shape[a] != 1]
+            bad = None if axis_records(q) == [rec[a] for a in keep] else 'squeeze of %r: axes %r, expected %r' % (p, axis_records(q), [rec[a] for a in keep])
+        except Exception as ex:
+            bad = 'squeeze raised %s: %s' % (type(ex).__name__, ex)
+        yield case, bad
+
+
 def replay(ob):
     odl, np = _odl()
     unit = ob.get('unit', '')
+    if unit.startswith('subpart'):
+        try:
+            bads = [b for c, b in subpartition_cases(odl, np) if b and ('insert' in c or not unit.startswith('subpart/'))]
+        except Exception as e:
+            return {'reproduced': False, 'detail': 'replay harness error: %r' % (e,)}
+        return {'reproduced': bool(bads), 'detail': bads[0] if bads else 'holds on the native partition pool'}
     try:
         if unit.startswith('bdry/'):
             bad = check_boundaries(odl, np)
